@@ -697,3 +697,40 @@ def rule_I6(ctx):
                    "" if ok else f"{q}.{st.name} stores {sorted(set(bad))}: the value computed for the first partition / volume parsed is reused for every later one",
                    inst=f"{m.path}:{q}.{st.name}", file=m.path)
     ctx.fact("I6", "construct classes", n_cls)
+
+
+# ------------------------------------------------------------------------ I7
+_ONE_SHOT = {"filter", "map", "zip", "iter", "reversed", "enumerate"}
+
+
+def rule_I7(ctx):
+    """what is stored on an element outlives one traversal (elements are memoised and listed / exported repeatedly): no
+    one-shot iterator - filter(), map(), zip(), iter(), reversed(), enumerate() or a generator expression - is handed to a
+    constructor of a package class or stored in an attribute; the first traversal would consume it"""
+    from .sem import single_defs
+    n = 0
+    for m, q, fn in ctx.prog.all_functions():
+        defs = None
+        for c in own_nodes(fn):
+            sinks = []
+            if isinstance(c, ast.Call) and isinstance(c.func, ast.Name):
+                r = ctx.prog.resolve(m, c.func.id)
+                if r and r[0] == "class":
+                    sinks = [(a, f"argument of {c.func.id}(...)") for a in c.args] + [(k.value, f"{c.func.id}({k.arg}=...)") for k in c.keywords if k.arg]
+            elif isinstance(c, ast.Assign) and any(isinstance(t, ast.Attribute) for t in c.targets):
+                sinks = [(c.value, f"`{norm(c.targets[0])}`")]
+            for v, where_ in sinks:
+                n += 1
+                cands = [v]
+                if isinstance(v, ast.Name):
+                    # every value the local may hold (any assignment to it in this function)
+                    cands = [a.value for a in own_nodes(fn) if isinstance(a, ast.Assign) and any(isinstance(t, ast.Name) and t.id == v.id for t in a.targets)] + \
+                            [a.value for a in own_nodes(fn) if isinstance(a, ast.AnnAssign) and isinstance(a.target, ast.Name) and a.target.id == v.id and a.value is not None]
+                e = next((x for x in cands if isinstance(x, ast.GeneratorExp) or (isinstance(x, ast.Call) and isinstance(x.func, ast.Name) and x.func.id in _ONE_SHOT
+                                                                                   and ctx.prog.resolve(m, x.func.id) is None)), None)
+                if e is not None:
+                    ctx.ob("I7", c, "values stored on elements can be traversed more than once", False,
+                           f"{where_} receives the one-shot iterator `{norm(e)[:60]}`: it is empty after the first ls / export of that element", inst=f"one-shot:{m.path}:{q}:{norm(e)[:30]}", file=m.path)
+    ctx.ob("I7", ctx.prog.module("smpl_extract/base.py").tree.body[0], "constructor arguments and attribute stores were examined", n >= 300, f"{n} sinks", inst="sinks-examined",
+           file="smpl_extract/base.py", qualname="<module>")
+    ctx.fact("I7", "sinks", n)
